@@ -1391,7 +1391,8 @@ class TrigInfo:
             Function.store_hass_context(hass_context)
 
             if task_unique and task_unique_func:
-                await task_unique_func(task_unique)
+                # kill_me is honoured again here: another run may have claimed the name since the check above
+                await task_unique_func(task_unique, **(self.task_unique_kwargs or {}))
             try:
                 await ast_ctx.call_func(func, None, **kwargs)
             except Exception as e:
